@@ -26,7 +26,7 @@ CLAIMS = {
     'C02': dict(
         technique='Coq refinement lemmas (abstraction stored : key->bytes) + verified trace monitor + random histories vs dict',
         text=('PROOF (Coq, closed): abstraction Store.stored; C02_views_are_the_map (library read path = abstraction under the invariant), '
-              'C02_add_loose_is_put (all inputs), C02_maintenance_is_invisible (along ANY monotone history - pack_all_loose, clean_storage, re-loosening '
+              'C02_add_loose_is_put, C02_pack_is_invisible, C02_delete_is_remove (program-level, all inputs), C02_maintenance_is_invisible (along ANY monotone history - pack_all_loose, clean_storage, re-loosening '
               '- every stored object stays stored with its bytes), C02_delete_rows, C02_reads_are_content_addressed. TIE: Store.apply_ev replayed over '
               'the intercepted trace of 27 operation variants must end in exactly the folder read raw; the verified monitor accepts every event '
               'boundary; 180+ random histories over 14 operation kinds and all option combinations are compared with a dict after EVERY step '
@@ -59,13 +59,15 @@ CLAIMS = {
               'non-target object is still stored), C05_add_loose_every_crash_point (ALL inputs, worlds, chunkings, crash points), '
               'C05_new_handle_never_wrong_bytes, C05_any_spill. TIE: the monitor runs on the intercepted trace of each of 12 (thorough 28) operation '
               'variants; the process is really killed (os._exit) before EVERY gated call and after the last one (229 / 460 kills), the folder is then '
-              'read raw and through a new handle. PARTIAL: crash-safety of pack/direct-to-pack/repack/import/delete programs is certified per '
-              'observed trace (all crash points of that trace) and by the exhaustive kill sweep, not by a program-level theorem.'),
+              'read raw and through a new handle; the Gallina programs must generate exactly the intercepted traces of 15 scenarios. PARTIAL: '
+              'direct-to-pack (no_holes), repack and import are certified per observed trace (all crash points of that trace) by the verified '
+              'monitor and by the exhaustive kill sweep, not by a program-level theorem; multi-pack pack_all_loose is the iteration of the one-pack program.'),
         design='4/C05'),
     'C06': dict(
         technique='Coq verified power-loss monitor + program-level theorem (add loose) + power-loss image at every kill point',
         text=('PROOF (Coq, closed): C06_monitor_sound with the power_loss projection (every file falls back to its last fsync), '
-              'C06_add_loose_power_safe (ALL inputs and crash points), default fsync settings from the AST. TIE: fsync hook snapshots file content; '
+              'C06_add_loose_power_safe, C06_pack_power_safe (do_fsync=true: rows committed only over flushed+fsynced bytes, loose unlinked only after that '
+              'commit), C06_clean_power_safe - ALL inputs and crash points; default fsync settings from the AST. TIE: fsync hook snapshots file content; '
               'after each of ~220 kills (every gated call + after completion) the power-loss image is built and examined raw and through a new '
               'handle; the power-loss monitor must accept every implementation trace with default settings (it rejects the do_fsync=False '
               'variants, as it should). PARTIAL as C05; kernel/disk behaviour is the fault model of the property text, not verified.'),
@@ -112,10 +114,12 @@ CLAIMS = {
         design='4/C10'),
     'C11': dict(
         technique='Coq lemmas on DELETE / repack statements / unlink + delete-heavy histories with raw pack comparison',
-        text=('PROOF (Coq, closed): C11_delete_exactly_requested, C11_repack_keeps_keys_update/_repoint, C11_unlink_removes_only_that_key/_that_key. '
+        text=('PROOF (Coq, closed): C11_delete_program (delete_objects as a program, all worlds and key lists: requested keys gone from every view, '
+              'everything else reads as before, invariant kept), C11_delete_exactly_requested, C11_repack_keeps_keys_update/_repoint, C11_unlink_removes_only_that_key/_that_key. '
               'TIE: 150 delete-heavy histories (loose, packed, both, stray duplicates), returned list vs set, packs byte-identical after delete, after '
               'repack every pack = concatenation of live stored bytes and no empty/temporary pack; delete/repack traces replayed through the model '
-              'end in the real folder and pass the monitor at every boundary. PARTIAL: p_delete/p_repack are not proved as programs.'),
+              'end in the real folder and pass the monitor at every boundary; p_delete generates exactly the intercepted trace. PARTIAL: repack is not '
+              'proved as a program (its byte-exact reclaim statement is decided by the raw comparison).'),
         design='4/C11'),
     'C12': dict(
         technique='Coq soundness+completeness of the validation model w.r.t. the read path + exhaustive single-damage sweep',
